@@ -20,8 +20,40 @@ pub fn opt_span(s: Span) -> Sx {
     }
 }
 
+/// printed tokens; invisible (None-delimited) groups, which `Display` would drop, are made
+/// visible as `⟦ … ⟧` so that a value that lost or gained one differs from the original
 pub fn toks<T: ToTokens>(t: &T) -> String {
-    t.to_token_stream().to_string()
+    let ts = t.to_token_stream();
+    fn has_none_group(ts: &proc_macro2::TokenStream) -> bool {
+        ts.clone().into_iter().any(|t| match t {
+            proc_macro2::TokenTree::Group(g) => g.delimiter() == proc_macro2::Delimiter::None || has_none_group(&g.stream()),
+            _ => false,
+        })
+    }
+    if !has_none_group(&ts) {
+        return ts.to_string();
+    }
+    fn render(ts: proc_macro2::TokenStream, out: &mut Vec<String>) {
+        for t in ts {
+            match t {
+                proc_macro2::TokenTree::Group(g) => {
+                    let (o, c) = match g.delimiter() {
+                        proc_macro2::Delimiter::Parenthesis => ("(", ")"),
+                        proc_macro2::Delimiter::Brace => ("{", "}"),
+                        proc_macro2::Delimiter::Bracket => ("[", "]"),
+                        proc_macro2::Delimiter::None => ("⟦", "⟧"),
+                    };
+                    out.push(o.to_string());
+                    render(g.stream(), out);
+                    out.push(c.to_string());
+                }
+                other => out.push(other.to_string()),
+            }
+        }
+    }
+    let mut parts = vec![];
+    render(ts, &mut parts);
+    parts.join(" ")
 }
 
 pub fn path(p: &syn::Path) -> Sx {
